@@ -161,3 +161,107 @@ func verifEncoded(enc Encoding, label string) ([]byte, int64) {
 		return b, int64(v)
 	}
 }
+
+// H-C15-compare-dispatch: the per-encoding dispatch of compare() (what DefaultTupleComparator and TupleDesc.Compare use
+// for every field) orders two encoded fields like the values they encode, for every fixed-width encoding: the
+// encoded bytes come from the real writers, the expected order from the Go values. One encoding per path (symbolic
+// selector), full value range of each type (YEAR on its documented domain {0} u [1901,2155], floats non-NaN).
+func verifH_C15_compare_dispatch() {
+	verifPanicIsViolation()
+	ctx := context.Background()
+	which := verifConcrete(verifNondetIntRange("encoding", 0, 12), 16)
+	a, b := verifNondetU64("a"), verifNondetU64("b")
+	var la, lb []byte
+	var enc Encoding
+	want := 0 // sign of (value a ? value b)
+	sgn := func(lt, eq bool) int {
+		if lt {
+			return -1
+		}
+		if eq {
+			return 0
+		}
+		return 1
+	}
+	switch which {
+	case 0:
+		enc, la, lb = Int8Enc, make([]byte, 1), make([]byte, 1)
+		writeInt8(la, int8(a))
+		writeInt8(lb, int8(b))
+		want = sgn(int8(a) < int8(b), int8(a) == int8(b))
+	case 1:
+		enc, la, lb = Uint8Enc, make([]byte, 1), make([]byte, 1)
+		writeUint8(la, uint8(a))
+		writeUint8(lb, uint8(b))
+		want = sgn(uint8(a) < uint8(b), uint8(a) == uint8(b))
+	case 2:
+		enc, la, lb = Int16Enc, make([]byte, 2), make([]byte, 2)
+		writeInt16(la, int16(a))
+		writeInt16(lb, int16(b))
+		want = sgn(int16(a) < int16(b), int16(a) == int16(b))
+	case 3:
+		enc, la, lb = Uint16Enc, make([]byte, 2), make([]byte, 2)
+		WriteUint16(la, uint16(a))
+		WriteUint16(lb, uint16(b))
+		want = sgn(uint16(a) < uint16(b), uint16(a) == uint16(b))
+	case 4:
+		enc, la, lb = Int32Enc, make([]byte, 4), make([]byte, 4)
+		writeInt32(la, int32(a))
+		writeInt32(lb, int32(b))
+		want = sgn(int32(a) < int32(b), int32(a) == int32(b))
+	case 5:
+		enc, la, lb = Uint32Enc, make([]byte, 4), make([]byte, 4)
+		writeUint32(la, uint32(a))
+		writeUint32(lb, uint32(b))
+		want = sgn(uint32(a) < uint32(b), uint32(a) == uint32(b))
+	case 6:
+		enc, la, lb = Int64Enc, make([]byte, 8), make([]byte, 8)
+		writeInt64(la, int64(a))
+		writeInt64(lb, int64(b))
+		want = sgn(int64(a) < int64(b), int64(a) == int64(b))
+	case 7:
+		enc, la, lb = Uint64Enc, make([]byte, 8), make([]byte, 8)
+		writeUint64(la, a)
+		writeUint64(lb, b)
+		want = sgn(a < b, a == b)
+	case 8:
+		enc, la, lb = Bit64Enc, make([]byte, 8), make([]byte, 8)
+		writeBit64(la, a)
+		writeBit64(lb, b)
+		want = sgn(a < b, a == b)
+	case 9:
+		ya, yb := int16(a), int16(b)
+		verifAssume(verifOr(ya == 0, verifAnd(ya >= 1901, ya <= 2155)))
+		verifAssume(verifOr(yb == 0, verifAnd(yb >= 1901, yb <= 2155)))
+		enc, la, lb = YearEnc, make([]byte, 1), make([]byte, 1)
+		writeYear(la, ya)
+		writeYear(lb, yb)
+		want = sgn(ya < yb, ya == yb)
+	case 10:
+		enc, la, lb = EnumEnc, make([]byte, 2), make([]byte, 2)
+		writeEnum(la, uint16(a))
+		writeEnum(lb, uint16(b))
+		want = sgn(uint16(a) < uint16(b), uint16(a) == uint16(b))
+	case 11:
+		enc, la, lb = SetEnc, make([]byte, 8), make([]byte, 8)
+		writeSet(la, a)
+		writeSet(lb, b)
+		want = sgn(a < b, a == b)
+	case 12:
+		enc, la, lb = TimeEnc, make([]byte, 8), make([]byte, 8)
+		writeTime(la, int64(a))
+		writeTime(lb, int64(b))
+		want = sgn(int64(a) < int64(b), int64(a) == int64(b))
+	}
+	got, err := compare(ctx, Type{Enc: enc}, la, lb, nil)
+	verifObserve("sign", uint64(verifSign(got)+1))
+	verifAssert(err == nil, "no-error")
+	verifAssert(verifSign(got) == want, "compare-orders-like-the-values")
+	// NULL sorts first, through the same entry point
+	gn, _ := compare(ctx, Type{Enc: enc}, nil, lb, nil)
+	verifAssert(gn < 0, "null-first")
+	gg, _ := compare(ctx, Type{Enc: enc}, la, nil, nil)
+	verifAssert(gg > 0, "null-first-right")
+	verifCover(want == 0, "equal-values")
+	verifReach("end")
+}
